@@ -462,6 +462,7 @@ def run(ctx):
             fu.report(ctx, fu.signature(det['sp'], det['f'], cl), d)
     ctx.extra['trace_events_validated_by_tlc'] = len(events)
     ctx.extra['trace_events_rejected_by_tlc'] = len(fails)
+    fu.design_drift(ctx, design, ctx.extra.get('_ops', []))
     fu.uncovered_report(ctx, classes)
     ctx.exhaustive = True
 
